@@ -165,7 +165,7 @@ def main(argv=None):
                 continue
             seen_keys.add(key)
             k += 1
-            if k > 12:
+            if k > int(os.environ.get('VERIF_MAX_REPLAYS') or 12):
                 break
             path = os.path.join("replays", f"{prop}-{k}.json")
             with open(os.path.join(VERIF, path), "w") as f:
